@@ -696,6 +696,16 @@ func recvAdversary(e *Env) {
 			probes = append(probes, probes[g.Intn(len(probes))])
 		}
 	}
+	if track && g.Pct(60) {
+		// a tracker with something in it: the client on two channels, other users
+		// on one of them each.  The hostile lines name these nicks and channels
+		// (bob, al, #c, #d), so they reach the paths that complain about a known
+		// nick on the wrong channel, not only the ones for unknown names
+		pre := []string{":me!u@h JOIN :#c", ":me!u@h JOIN #d", ":bob!u@h JOIN #c", ":al!u@h JOIN :#d",
+			":irc.sim 353 me = #c :me @bob", ":irc.sim 352 me #d u h irc.sim al H :0 Al"}
+		probes = append(pre[:g.Range(3, len(pre))], probes...)
+		e.S.Count("probe.hostile-lines-against-a-populated-tracker")
+	}
 	n = len(probes)
 	if e.Tier == "thorough" {
 		// the bounded-exhaustive family is swept by run index: 40 consecutive
